@@ -64,6 +64,20 @@ pub(crate) fn bbox_write_z_range_to<PointType: HasZ, W: Write>(
     Ok(())
 }
 
+/// Reads a number of points / parts: these are stored as signed integers
+/// but a negative count is never valid
+pub(crate) fn read_count<T: Read>(source: &mut T) -> std::io::Result<i32> {
+    let count = source.read_i32::<LittleEndian>()?;
+    if count < 0 {
+        Err(std::io::Error::new(
+            std::io::ErrorKind::InvalidData,
+            "negative number of points or parts",
+        ))
+    } else {
+        Ok(count)
+    }
+}
+
 pub(crate) fn read_xy_in_vec_of<PointType, T>(
     source: &mut T,
     num_points: i32,
@@ -199,9 +213,21 @@ impl<'a, PointType: Default + HasMutXY, R: Read> MultiPartShapeReader<'a, PointT
     pub(crate) fn new(source: &'a mut R) -> std::io::Result<Self> {
         let mut bbox = GenericBBox::<PointType>::default();
         bbox_read_xy_from(&mut bbox, source)?;
-        let num_parts = source.read_i32::<LittleEndian>()?;
-        let num_points = source.read_i32::<LittleEndian>()?;
+        let num_parts = read_count(source)?;
+        let num_points = read_count(source)?;
         let parts_array = read_parts(source, num_parts)?;
+        // each part starts where the previous one ends: the start indices
+        // must be ascending and inside the points array
+        let parts_are_valid = parts_array.windows(2).all(|pair| pair[0] <= pair[1])
+            && parts_array
+                .iter()
+                .all(|&start| (0..=num_points).contains(&start));
+        if !parts_are_valid {
+            return Err(std::io::Error::new(
+                std::io::ErrorKind::InvalidData,
+                "invalid start of part index",
+            ));
+        }
         let parts = Vec::<Vec<PointType>>::with_capacity(num_parts as usize);
         Ok(Self {
             num_points,
